@@ -93,7 +93,10 @@ fn get_reference_sequence_context(records: &[Record]) -> ReferenceSequenceContex
         record.alignment_end(),
     ) {
         (Some(id), Some(start), Some(end)) => ReferenceSequenceContext::some(id, start, end),
-        _ => ReferenceSequenceContext::None,
+        (None, ..) => ReferenceSequenceContext::None,
+        // A record that has a reference sequence ID but no alignment start keeps its ID only in a
+        // multi-reference slice.
+        (Some(_), ..) => ReferenceSequenceContext::Many,
     };
 
     for record in records.iter().skip(1) {
